@@ -114,7 +114,8 @@ def run(tier):
     # freshly compiled sources: the Python tables the compiler writes, read by ZoneSpecifier, against the C++ tables it writes,
     # read by ExtendedZoneProcessor (one-minute offsets, remainders of 8..14 minutes, negative sub-hour offsets, 0:20 shifts...)
     nfresh = 0
-    srcg = compiler.gen_source(random.Random(common.seed() * 977 + 5), 40 if tier == 'quick' else 160)
+    srcg = compiler.gen_source(random.Random(common.seed() * 977 + 5), 40 if tier == 'quick' else 160, near_until=True)
+    srcg = srcg + compiler.edge_source()
     wf = os.path.join(work, 'fresh')
     os.makedirs(wf, exist_ok=True)
     rx, outx, errx = compiler.run_compiler(srcg, wf, 'extended', flags=('arduino', 'python', 'pieces'))
